@@ -121,6 +121,8 @@ type interp struct {
 	constEnv *object.Env
 	rec      *recorder
 	detail   bool
+	kept     []object.PanObject // values handed to keep(x): live values of a C06 history that no variable names
+	topEnv   *object.Env        // frame of the first fp() call (the top level of the history)
 }
 
 func newInterp(stdin string) *interp {
@@ -155,8 +157,8 @@ func (it *interp) injectProbes() {
 		it.rec.add("probe:" + k + "|" + it.frames(env))
 		return object.BuiltInNil
 	}
-	fp := func(env *object.Env, kwargs *object.PanObj, args ...object.PanObject) object.PanObject {
-		// fingerprints of every variable of the caller's frame (C06 / C19)
+	snapshot := func(env *object.Env) {
+		// fingerprints of every variable of the top-level frame and of every kept value (C06 / C19)
 		type kv struct{ k, v string }
 		var kvs []kv
 		for h, v := range env.Store {
@@ -167,14 +169,36 @@ func (it *interp) injectProbes() {
 			kvs = append(kvs, kv{s.(*object.PanStr).Value, fingerprint(v, 0)})
 		}
 		sort.Slice(kvs, func(i, j int) bool { return kvs[i].k < kvs[j].k })
-		parts := make([]string, len(kvs))
-		for i, x := range kvs {
-			parts[i] = x.k + "=" + x.v
+		parts := make([]string, 0, len(kvs)+len(it.kept))
+		for _, x := range kvs {
+			parts = append(parts, x.k+"="+x.v)
+		}
+		for i, v := range it.kept {
+			parts = append(parts, "#k"+strconv.Itoa(i+1)+"="+fingerprint(v, 0))
 		}
 		it.rec.add("fp:" + strings.Join(parts, "\x1f"))
+	}
+	fp := func(env *object.Env, kwargs *object.PanObj, args ...object.PanObject) object.PanObject {
+		if it.topEnv == nil {
+			it.topEnv = env
+		}
+		snapshot(it.topEnv)
 		return object.BuiltInNil
 	}
+	// keep(x): x becomes a live value of the history at this very moment (in the middle of an evaluation),
+	// a snapshot of all live values is recorded, x is returned
+	keep := func(env *object.Env, kwargs *object.PanObj, args ...object.PanObject) object.PanObject {
+		if len(args) == 0 {
+			return object.BuiltInNil
+		}
+		it.kept = append(it.kept, args[0])
+		if it.topEnv != nil {
+			snapshot(it.topEnv)
+		}
+		return args[0]
+	}
 	it.constEnv.Set(object.GetSymHash("fp"), object.NewPanBuiltInFunc(fp))
+	it.constEnv.Set(object.GetSymHash("keep"), object.NewPanBuiltInFunc(keep))
 	it.constEnv.Set(object.GetSymHash("say"), object.NewPanBuiltInFunc(say))
 	it.constEnv.Set(object.GetSymHash("probe"), object.NewPanBuiltInFunc(probe))
 }
@@ -549,6 +573,7 @@ func doProg(rq *Req) *Resp {
 			it.setIO(rq.Stdin)
 		}
 		env := object.NewEnclosedEnv(it.constEnv)
+		it.kept, it.topEnv = nil, env
 		end := evalNode(it, prog, env, rq.Fuel, rq.Depth)
 		ev := it.rec.take()
 		if i == 0 {
